@@ -152,6 +152,12 @@ func runRFaultOnce(ws *WSeg, prog []ROp, fault *ReadFault, maxReadsPerCall int, 
 		f.From += base
 		ra.SetFault(&f)
 	}
+	if maxReadsPerCall > 0 {
+		// a call that keeps reading (an unbounded retry of a failing read) is cut
+		// off far beyond anything a returning call needs
+		ra.Budget = 20*maxReadsPerCall + 2000
+		ra.Mark()
+	}
 	body := func(int) {
 		for oi := range prog {
 			op := &prog[oi]
